@@ -1,7 +1,8 @@
 --------------------------- MODULE Trace_Builder ---------------------------
 (* Code -> spec for the builder machine.  Every event of the trace is one execution of the real       *)
 (* canvas.Path builder recorded by harness/internal/props/c10 (and by c11 for parsed paths):           *)
-(*    [id, hist, sm]   hist = the builder calls that were made (spec alphabet, lattice integers),      *)
+(*    <<id, hist, sm>> hist = the builder calls that were made (spec alphabet, lattice integers),      *)
+(*                            each call <<opcode, args...>> (arrays parse 10x faster than JSON objects) *)
 (*                     sm   = Path.Data() afterwards, decoded by the independent oracle and projected  *)
 (*                            back onto the lattice (see the stream format in Builder.tla).            *)
 (* The event is consumed by running the specification's own Apply over the logged calls; the stream   *)
@@ -20,10 +21,19 @@ N == Len(Trace)
 Lo(k) == ((k - 1) * N) \div NChunks + 1
 Hi(k) == (k * N) \div NChunks
 
+OpNames == <<"MoveTo", "LineTo", "QuadTo", "CubeTo", "ArcTo", "Arc", "Close", "Append", "Join">>
+ShapeNames == <<"Shape:Line", "Shape:Rectangle", "Shape:BeveledRectangle", "Shape:RoundedRectangle", "Shape:Circle", "Shape:Ellipse", "Shape:Grid",
+                "Shape:Arc", "Shape:EllipticalArc", "Shape:Triangle", "Shape:RegularPolygon", "Shape:RegularStarPolygon", "Shape:StarPolygon">>
+OpName(k) == IF k > 100 THEN ShapeNames[k - 100] ELSE OpNames[k]
+HistOf(h) == [i \in 1..Len(h) |-> Call(OpName(h[i][1]), SubSeq(h[i], 2, Len(h[i])))]
+\* off = 1: some decoded value that should be a lattice value is not (the stream then holds the rounded values)
+EvOf(i) == [id |-> Trace[i][1], hist |-> HistOf(Trace[i][2]), sm |-> Trace[i][3], off |-> Trace[i][4]]
+
 Verdict(ev, m) ==
   LET wf == WFViolations(ev.sm)
-      g  == IF IsShape(ev.hist) THEN ShapeVerdict(ev.hist[1], NF(StreamSubs(ev.sm)))
-            ELSE IF NF(StreamSubs(ev.sm)) = NF(m.subs) THEN "ok" ELSE GeomVerdict(ev.hist, ev.sm) IN
+      g0 == IF IsShape(ev.hist) THEN ShapeVerdict(ev.hist[1], NF(StreamSubs(ev.sm)))
+            ELSE IF NF(StreamSubs(ev.sm)) = NF(m.subs) THEN "ok" ELSE GeomVerdict(ev.hist, ev.sm)
+      g  == IF ev.off = 1 /\ g0 # "free" THEN "offgrid" ELSE g0 IN
   [id |-> ev.id, wf |-> wf, geom |-> g, exp |-> SubsJson(NF(m.subs)), pen |-> m.pen]
 Judge(v) == (v.wf # {} \/ v.geom \notin {"ok", "free"}) => PrintT("@@" \o ToJson(v))
 
@@ -31,10 +41,11 @@ TInit == l = 0 /\ st = InitSt /\ hist = <<>>
 TChunk == /\ l = 0 /\ l' \in {0 - k : k \in 1..NChunks} /\ UNCHANGED vars
 TEvent == /\ l < 0
           /\ \E i \in Lo(0 - l)..Hi(0 - l) :
+               LET ev == EvOf(i) IN
                /\ l' = i
-               /\ hist' = Trace[i].hist
-               /\ st' = Meaning(Trace[i].hist, {})            \* the spec's actions applied to the logged calls
-               /\ Judge(Verdict(Trace[i], st'))
+               /\ hist' = ev.hist
+               /\ st' = Meaning(ev.hist, {})                  \* the spec's actions applied to the logged calls
+               /\ Judge(Verdict(ev, st'))
 TNext == TChunk \/ TEvent
 TSpec == TInit /\ [][TNext]_tvars
 =============================================================================
